@@ -616,3 +616,17 @@ func TestD31_TrailingDataAfterJSON(t *testing.T) {
 		t.Fatalf("trailing white space must be accepted: %v %+v", errs, d)
 	}
 }
+
+// D32 (known finding): a JSON integer beyond 2^53 is rounded by the float64 decoding of zjson and stored
+// in an Int64 destination as a different number, without an issue
+func TestD32_JSONBigInteger(t *testing.T) {
+	if os.Getenv("VERIF_DEMO_KNOWN") == "" {
+		t.Skip("known finding D32 (set VERIF_DEMO_KNOWN=1 to run)")
+	}
+	type D struct{ N int64 }
+	var d D
+	errs := z.Struct(z.Schema{"n": z.Int64()}).Parse(zjson.Decode(strings.NewReader(`{"n":9007199254740993}`)), &d)
+	if errs == nil && d.N != 9007199254740993 {
+		t.Fatalf("9007199254740993 was stored as %d without an issue", d.N)
+	}
+}
